@@ -121,9 +121,19 @@ def _split_site(tree) -> tuple[str, int, dict]:
                and isinstance(b.value, ast.Call) and isinstance(b.value.func, ast.Attribute)]
         if asg:
             found.append((n, asg))
-    if len(found) != 1 or len(found[0][1]) != 1 or len(found[0][0].body) != 1 or found[0][0].orelse:
+    if len(found) != 1 or len(found[0][1]) != 1 or found[0][0].orelse:
         raise TranslateError('_get_file_parts: expected exactly one `if ...: <names> = filename.<split>(...)` statement')
     iff, (asg,) = found[0]
+    # `filename, ext = os.path.splitext(filename)` followed by dropping the dot of the extension: SplitExt (Fmt/VpkNameSplit.v [splitext])
+    fcall = asg.value
+    if ast.unparse(fcall.func) in ('os.path.splitext', 'posixpath.splitext') and not fcall.keywords and len(fcall.args) == 1 \
+            and ast.unparse(fcall.args[0]) == 'filename' and [ast.unparse(e) for e in asg.targets[0].elts] == ['filename', 'ext'] \
+            and len(iff.body) == 2 and iff.body[0] is asg and ast.unparse(iff.body[1]) in (
+                'ext = ext[1:]', "ext = ext.removeprefix('.')", "ext = ext.lstrip('.')") \
+            and ast.unparse(iff.test) in ('not ext', "not ext and '.' in filename", "'.' in filename and (not ext)", "ext == ''"):
+        return 'SplitExt', None, {'line': asg.lineno, 'statement': ast.unparse(asg), 'digest': ast_digest(gfp)}
+    if len(iff.body) != 1:
+        raise TranslateError('_get_file_parts: expected exactly one `if ...: <names> = filename.<split>(...)` statement')
     conds = iff.test.values if isinstance(iff.test, ast.BoolOp) and isinstance(iff.test.op, ast.And) else [iff.test]
     no_ext = False
     guard_sep = None
@@ -292,7 +302,14 @@ def translate() -> tuple[str, dict]:
     # the name validation of new_file on all triples of probe strings; the call sites of `_check_arch_index` are guarded by "is a directory VPK"
     idx_fn = [n for n in tree.body if isinstance(n, ast.FunctionDef) and n.name == '_check_arch_index']
     idx_cmp = bool(idx_fn) and c13_place.index_check_ok(idx_fn[0], consts)
-    chk_idx = idx_cmp and c13_place.index_check_guarded(fwrite, ('self.vpk',)) and c13_place.index_check_guarded(addf, ('self',))
+    # FileInfo.write in the rejection scenarios (read-only / index out of range / both): what raised, and what had been stored by then
+    rej = c13_place.analyse_rejections(fwrite, consts)
+    side['rejections'] = {'rows': rej, 'ok': c13_place.rej_rows_ok(rej)}
+    write_checks_idx = all(r['raised'] and r['by'] == 'index' for r in rej if r['kind'] == 'index' and r['dir']) \
+        and any(r['kind'] == 'index' and r['dir'] for r in rej)
+    add_guard = c13_place.index_check_guarded(addf, ('self',))
+    side['add_file_checks_index_before_new_file'] = add_guard
+    chk_idx = idx_cmp and write_checks_idx and add_guard
     chk_name = c13_place.name_check_ok(newf)
     max_pre = consts.get('MAX_PRELOAD')
     split_kind, split_sep, split_info = _split_site(tree)
@@ -308,7 +325,7 @@ def translate() -> tuple[str, dict]:
     nl = lambda xs: '[' + '; '.join(str(x) for x in xs) + ']%N'
     text = '\n'.join([
         '(* GENERATED by translate/c13_vpk.py from /repo/src/srctools/vpk.py. Do not edit. *)',
-        'From Coq Require Import List NArith Bool.', 'From SV Require Import Fmt.VpkDir SM.Vpk Fmt.VpkNameSplit SM.VpkPlace.', 'Import ListNotations.',
+        'From Coq Require Import List NArith Bool.', 'From SV Require Import Fmt.VpkDir SM.Vpk Fmt.VpkNameSplit SM.VpkPlace SM.VpkWriteOrder.', 'Import ListNotations.',
         'Open Scope N_scope.',
         f'Definition g_sig : N := {consts["VPK_SIG"]}.',
         f'Definition g_dir_index_write : N := {write_dir_sentinel}.',
@@ -327,9 +344,12 @@ def translate() -> tuple[str, dict]:
         '(* FileInfo.read / FileInfo.verify executed on symbolic values: (arch_len zero, arch_index None, source of read, source verify checks) *)',
         'Definition g_read_table : list rrow := ' + c13_place.coq_read_rows(rd['rows']) + '.',
         'Definition g_tail_to_footer : bool := place_dest_ok g_place_table.',
+        '(* FileInfo.write executed in the rejection scenarios: (directory VPK, same checksum, what is wrong, raised?, by which validation, stores executed before) *)',
+        'Definition g_rej_table : list rejrow :=\n  ' + c13_place.coq_rej_rows(rej) + '.',
+        f'Definition g_add_file_checks_index_first : bool := {b(add_guard)}.',
         f'Definition g_chk_idx : bool := {b(chk_idx)}.',
         f'Definition g_chk_name : bool := {b(chk_name)}.',
-        f'Definition g_ext_split : split_kind := {split_kind} {split_sep}.',
+        f'Definition g_ext_split : split_kind := {split_kind}{"" if split_sep is None else " " + str(split_sep)}.',
         '(* the instance the model is run and proved with *)',
         'Definition g_dcfg : dcfg := {| c_sig := g_sig; c_dir_index := g_dir_index_write; c_term := g_term_write |}.',
         'Definition g_vcfg (is_dir : bool) (limit : option N) : vcfg :=',
